@@ -106,6 +106,7 @@ class VC:
         self.seq_sorts = set()
         self.rec_decl = set()
         self.rec_insts = {}      # (name, argterms) -> (level, argVs)
+        self.opaque_recs = set()
         self.strlits = {}
         self.site_counters = {}
         self.inlined = set()
@@ -536,7 +537,7 @@ class VC:
             for k, (lv, argvs) in todo:
                 done.add(k)
                 axioms.extend(self.lemma_instances(k, argvs, lv))
-                if level >= fuel:
+                if level >= fuel or k[0] in self.opaque_recs:
                     continue
                 sd = self.cs.specs[k[0]]
                 ev = SpecEval(self, sd.pkg, {}, None, None, rec_level=lv + 1)
